@@ -272,6 +272,7 @@ static uint64_t *c06_make(rng_t *r, size_t *pn, const char **kindname) {
         static const size_t bl[] = {8193, 8200, 9000, 9998, 9999, 10000, 10001, 10002, 12000, 20000, 30000};
         n = bl[rng_below(r, 11)];
     }
+    if (big && n < 10000 && rng_chance(r, 1, 2)) kind = 1; /* the bitmap cut-off window just below 10000 */
     uint64_t *a = malloc((n + 1) * 8);
     switch (kind) {
     case 0: { /* unique ratio around 0.15 */
@@ -315,10 +316,15 @@ static uint64_t *c06_make(rng_t *r, size_t *pn, const char **kindname) {
             if (rng_chance(r, 1, 3)) { size_t k = 1 + rng_below(r, n - 1); a[k] = a[k - 1]; }
         }
         if (kind == 3) reverse(a, n);
-        if (kind == 1 && n > 4 && rng_chance(r, 1, 3)) {
+        if (kind == 1 && n > 4 && rng_chance(r, 1, n > 4096 ? 1 : 3)) {
             /* two ascending runs joined at one index (a power of two where possible): a single descent */
             size_t j = (size_t)1 << rng_below(r, 14);
             while (j >= n) j >>= 1;
+            if (n > 4096 && rng_chance(r, 1, 2)) { /* the largest power of two below n (and its neighbours) */
+                j = (size_t)1 << (63 - __builtin_clzll((uint64_t)n - 1));
+                j += rng_below(r, 3);
+                j -= 1;
+            }
             if (rng_chance(r, 1, 4)) j = 1 + rng_below(r, n - 1);
             uint64_t *t = malloc(n * 8);
             memcpy(t, a + (n - j), j * 8);
